@@ -433,9 +433,12 @@ bool DependencyScan::RecomputeNodeDirty(Node* node, std::vector<Node*>* stack,
 
   bool dirty = false;
   edge->outputs_ready_ = true;
-  edge->deps_missing_ = false;
 
   const bool edge_deps_loaded = edge->deps_loaded_;
+  // Whether the discovered dependencies could be loaded is only found out on
+  // the first encounter; a re-scan after a dyndep load must not forget it.
+  if (!edge_deps_loaded)
+    edge->deps_missing_ = false;
   if (!edge->deps_loaded_) {
     // This is our first encounter with this edge.
     edge->deps_loaded_ = true;
@@ -485,6 +488,9 @@ bool DependencyScan::RecomputeNodeDirty(Node* node, std::vector<Node*>* stack,
                                                 edge);
   if (!dirty)
     dirty = recomputeOutputsDirty.all(most_recent_input);
+
+  if (edge_deps_loaded && edge->deps_missing_)
+    dirty = true;
 
   if (!edge_deps_loaded) {
     // only try to load the deps log if no rebuild is necessary
